@@ -403,4 +403,75 @@ def polymorphRow (poly : List (LTerm × Rat)) (keep : Bool) (respVars : List Lab
 def penaltySatisfied (reduction : List (Pair × Label)) (row : Label → Rat) : Bool :=
   reduction.all (fun c => row c.1.1 * row c.1.2 == row c.2)
 
+/-! ## `HigherOrderComposite.sample_poly` with its options, over a child-sampler parameter -/
+
+/-- one row of the returned sample set -/
+structure HocRow where
+  cols : List (Label × Rat)
+  energy : Rat
+  sat : Bool
+
+/-- what the child sampler returned: `response.variables` and the rows of `record.sample` -/
+structure Response where
+  vars : List Label
+  rows : List (Label → Rat)
+
+/-- `polymorph_response(response, poly, bqm, penalty_strength, keep_penalty_variables, discard_unsatisfied)`:
+    with `discard_unsatisfied` only the rows in which *every* product constraint holds are kept (and flagged
+    satisfied); the energy of a row is the polynomial's energy of that row; the columns are the child's
+    variables or, without `keep_penalty_variables`, the polynomial's -/
+def polymorphResponse (poly : List (LTerm × Rat)) (reduction : List (Pair × Label)) (keep discard : Bool) (resp : Response) :
+    List HocRow :=
+  (resp.rows.filter (fun x => !discard || penaltySatisfied reduction x)).map (fun x =>
+    { cols := (polymorphRow poly keep resp.vars x).1,
+      energy := (polymorphRow poly keep resp.vars x).2,
+      sat := discard || penaltySatisfied reduction x })
+
+/-- `dict[k] = v` on an association list -/
+def setKey (l : List (Label × Rat)) (k : Label) (v : Rat) : List (Label × Rat) :=
+  if l.any (fun e => e.1 = k) then l.map (fun e => if e.1 = k then (k, v) else e) else l ++ [(k, v)]
+
+def getKey (l : List (Label × Rat)) (k : Label) : Option Rat := (l.find? (fun e => e.1 = k)).map (·.2)
+
+/-- `bqm.adj[a].get(b, 0)` -/
+def adjGet (b : Bq Label) (a c : Label) : Rat :=
+  ((b.quad.find? (fun e => (e.1.1 = a ∧ e.1.2 = c) ∨ (e.1.1 = c ∧ e.1.2 = a))).map (·.2)).getD 0
+
+/-- `expand_initial_state(bqm, initial_state)`: every product variable gets the product of its factors, every
+    spin auxiliary the value minimising `en·val` with `en = Σ state[w]·bqm.adj[aux].get(w, 0)` over
+    `w ∈ {u, v, product}` (`min` over `{1, -1}` in this order: ties give `1`); `none` = `KeyError` -/
+def expandInitialState (b : Bq Label) : List (Pair × Label × Option Label) → List (Label × Rat) → Option (List (Label × Rat))
+  | [], st => some st
+  | ((u, v), p, aux?) :: rest, st =>
+    match getKey st u, getKey st v with
+    | some su, some sv =>
+      let st1 := setKey st p (su * sv)
+      match aux? with
+      | none => expandInitialState b rest st1
+      | some aux =>
+        let en := su * adjGet b aux u + sv * adjGet b aux v + (su * sv) * adjGet b aux p
+        expandInitialState b rest (setKey st1 aux (if 0 < en then -1 else 1))
+    | _, _ => none
+
+/-- `HigherOrderComposite(child).sample_poly(poly, penalty_strength, keep_penalty_variables, discard_unsatisfied,
+    initial_state=…)`: `child` receives the quadratic model and the expanded initial state (`none` when the
+    option is not given); `none` = an exception (`make_quadratic` / `expand_initial_state`) -/
+def samplePoly (child : Bq Label → Option (List (Label × Rat)) → Response)
+    (vt : VT) (raw : List (List Label × Rat)) (choices : List Pair)
+    (strength : Rat) (keep discard : Bool) (init : Option (List (Label × Rat))) : Option (List HocRow) :=
+  match makeQuadratic [] vt strength raw choices with
+  | none => none
+  | some (bag, st, auxs) =>
+    let b := (Bq.empty vt : Bq Label).apply bag
+    let red := (List.range st.constraints.length).map (fun i =>
+      ((st.constraints.getD i ((Label.int 0, Label.int 0), Label.int 0)).1,
+       (st.constraints.getD i ((Label.int 0, Label.int 0), Label.int 0)).2, auxs[i]?))
+    let init' : Option (Option (List (Label × Rat))) :=
+      match init with
+      | none => some none
+      | some s => if st.constraints.isEmpty then some (some s) else (expandInitialState b red s).map some
+    match init' with
+    | none => none
+    | some i' => some (polymorphResponse (normPoly vt raw) st.constraints keep discard (child b i'))
+
 end Red
